@@ -169,6 +169,43 @@ type histState struct {
 	sb     align.SeqBag
 	al     align.Alignment // nil for a plain seqbag
 	probes []string
+	// alignments handed to Append / Concat as arguments, with their content at that moment: an argument is only
+	// read, so it must keep that content whatever happens to the receiver later, and writing into it afterwards
+	// must not show in the receiver
+	args     []align.Alignment
+	argSnaps []string
+}
+
+func (h *histState) keepArg(o align.Alignment) {
+	h.args = append(h.args, o)
+	h.argSnaps = append(h.argSnaps, encRows(rowsOf(o)))
+}
+
+// aliasRecord is appended to the trace after the last operation.
+func (h *histState) aliasRecord() string {
+	if len(h.args) == 0 {
+		return "alias=ok"
+	}
+	for k, o := range h.args {
+		if encRows(rowsOf(o)) != h.argSnaps[k] {
+			return "alias=argument-changed"
+		}
+	}
+	before := observe(h.sb, h.al, h.probes)
+	for _, o := range h.args {
+		o.ToLower()
+		for i := 0; i < o.NbSequences(); i++ {
+			if s, ok := o.GetSequenceById(i); ok {
+				for j := 0; j < len(s); j++ {
+					o.SetSequenceChar(i, j, '#')
+				}
+			}
+		}
+	}
+	if observe(h.sb, h.al, h.probes) != before {
+		return "alias=receiver-changed-by-writing-into-an-argument"
+	}
+	return "alias=ok"
 }
 
 func (h *histState) addProbe(n string) { h.probes = append(h.probes, n) }
@@ -202,6 +239,7 @@ func (h *histState) step(op string) string {
 		if err != nil {
 			return "na"
 		}
+		h.keepArg(o)
 		return errs(h.al.Append(o))
 	case "concat":
 		for _, r := range decPRows(f[1]) {
@@ -214,6 +252,7 @@ func (h *histState) step(op string) string {
 		if err != nil {
 			return "na"
 		}
+		h.keepArg(o)
 		return errs(h.al.Concat(o))
 	case "rename":
 		m := map[string]string{}
@@ -401,6 +440,16 @@ func init() {
 					break
 				}
 			}
+		}
+		if len(out) == 0 || out[len(out)-1] != "PANIC" {
+			func() {
+				defer func() {
+					if r := recover(); r != nil {
+						out = append(out, "alias=panic")
+					}
+				}()
+				out = append(out, h.aliasRecord())
+			}()
 		}
 		return strings.Join(out, ";")
 	})
